@@ -12,3 +12,42 @@ Definition head_timestamp (source_date_epoch : option Z) (now : Z) : Z :=
   | Some e => e + mac_epoch_offset
   | None => now + mac_epoch_offset
   end.
+
+(* ---- name records: fontbe/src/name.rs collects StaticMetadata.names (a HashMap) into a Vec and sorts it
+   (NameRecord's derived Ord: platform, encoding, language, name id; keys of a map are distinct), or merges it with the
+   FEA name table through a BTreeMap on the same key.  The model: insertion sort on the key. *)
+From Coq Require Import List NArith Bool.
+Import ListNotations.
+
+Fixpoint insert_by {A : Type} (leb : A -> A -> bool) (x : A) (l : list A) : list A :=
+  match l with
+  | [] => [x]
+  | y :: t => if leb x y then x :: l else y :: insert_by leb x t
+  end.
+Definition isort_by {A : Type} (leb : A -> A -> bool) (l : list A) : list A := fold_right (insert_by leb) [] l.
+
+(* platform id, encoding id, language id, name id *)
+Definition name_key : Type := (N * N * N * N)%type.
+Definition key_leb (a b : name_key) : bool :=
+  match a, b with
+  | (p1, e1, l1, n1), (p2, e2, l2, n2) =>
+    if N.ltb p1 p2 then true else if N.ltb p2 p1 then false else
+    if N.ltb e1 e2 then true else if N.ltb e2 e1 then false else
+    if N.ltb l1 l2 then true else if N.ltb l2 l1 then false else N.leb n1 n2
+  end.
+Definition sort_keys (l : list name_key) : list name_key := isort_by key_leb l.
+
+Definition key_eqb (a b : name_key) : bool :=
+  match a, b with
+  | (p1, e1, l1, n1), (p2, e2, l2, n2) => N.eqb p1 p2 && N.eqb e1 e2 && N.eqb l1 l2 && N.eqb n1 n2
+  end.
+Fixpoint keys_eqb (l1 l2 : list name_key) : bool :=
+  match l1, l2 with
+  | [], [] => true
+  | a :: t1, b :: t2 => key_eqb a b && keys_eqb t1 t2
+  | _, _ => false
+  end.
+(* the correspondence predicate: the records of a compiled font, handed to the model in another order (reversed, and
+   rotated by one), come out of the model's sort exactly as the font has them *)
+Definition name_order_ok (keys : list name_key) : bool :=
+  keys_eqb (sort_keys (rev keys)) keys && keys_eqb (sort_keys (tl keys ++ firstn 1 keys)) keys.
